@@ -103,7 +103,8 @@ def f64s(x):
 # ---------------------------------------------------------------------------------------------
 def job(j, seed):
     N, chunk, angle_unit, mode, *rest = j
-    hshape = [float(x) for x in (rest[0] if rest else (2, 3))]
+    hshape = [float(x) for x in (rest[0] if rest and rest[0] else (2, 3))]
+    meta_dt = rest[1] if len(rest) > 1 else 'float64'
     import numpy as np
     from symex import core as C
     from symex.core import R
@@ -116,8 +117,8 @@ def job(j, seed):
     sc, build, models, sqw, rw = _load()
     fresh_run()
     obs, cands = [], []
-    tag = f'N={N},chunk={chunk},angles={angle_unit},{mode}' + ('' if hshape == [2.0, 3.0] else f',hist={[int(x) for x in hshape]}')
-    case = {'N': N, 'chunk': chunk, 'angle_unit': angle_unit, 'mode': mode, 'hist_shape': hshape}
+    tag = f'N={N},chunk={chunk},angles={angle_unit},{mode}' + ('' if hshape == [2.0, 3.0] else f',hist={[int(x) for x in hshape]}') + ('' if meta_dt == 'float64' else f',metadata {meta_dt}')
+    case = {'N': N, 'chunk': chunk, 'angle_unit': angle_unit, 'mode': mode, 'hist_shape': hshape, 'meta_dtype': meta_dt}
     n_runs = 2
     C.CTX.fork_timeout_ms = 3000
     # ---- symbolic pixel rows with symbolic unit scales (ascending within a row: bounds the min/max forks)
@@ -180,6 +181,25 @@ def job(j, seed):
     sample = models.SqwIXSample(name='smp', lattice_spacing=Variable(_arr=arr(alatt, None), dims=(), unit=uA, dtype=sc.DType.vector3),
                                 lattice_angle=sc.vector([90.0, 90.0, 90.0], unit='deg'))
     dnd.proj.lattice_spacing = Variable(_arr=arr(alatt, None), dims=(), unit=uA, dtype=sc.DType.vector3)
+    # histogram metadata (scales, ranges, offsets of the image axes): symbolic numbers in symbolic units (3 x inverse length, energy),
+    # float64 or integer-valued (sc.scalar(2, unit='1/nm') is int64)
+    uQ = sym_unit('Q', '1/m')
+    mdt = sc.DType.float64 if meta_dt == 'float64' else sc.DType.int64
+    msym = {}
+
+    def mvars(name, n):
+        out = []
+        for k in range(4):
+            vs = [C.sym_var(f'{name}{k}_{i}', is_int=meta_dt != 'float64') for i in range(n)]
+            msym[name, k] = vs
+            un = uQ if k < 3 else uE
+            out.append(Variable(dims=(), values=vs[0], unit=un, dtype=mdt) if n == 1 else Variable(_arr=arr(vs, None), dims=('range',), unit=un, dtype=mdt))
+        return out
+
+    dnd.axes.img_scales = mvars('scale', 1)
+    dnd.axes.img_range = mvars('range', 2)
+    dnd.axes.offset = mvars('aoff', 1)
+    dnd.proj.offset = mvars('poff', 1)
 
     def run():
         f = SymFile()
@@ -341,6 +361,15 @@ def job(j, seed):
         chk(f'{P}:zero histogram of the declared shape {[int(x) for x in hshape]} (values, errors f64; counts u64); written {[int(float(x)) for x in shp]}', okh, p.pc, 'C13:histogram')
         dm = dec[("data", "metadata")][0]
         chk(f'{P}:histogram metadata nbins', C.B.const([float(x) for x in f64s(dm['axes'][0]['nbins_all_dims'])] == hshape), p.pc, 'C13:histogram')
+        qcan, ecan = parse_unit('1/angstrom'), parse_unit('meV')
+        for what, rec_, name in (('axes.img_scales', dm['axes'][0]['img_scales'], 'scale'), ('axes.img_range', dm['axes'][0]['img_range'], 'range'),
+                                 ('axes.offset', dm['axes'][0]['offset'], 'aoff'), ('proj.offset', dm['proj'][0]['offset'], 'poff')):
+            got = list(f64s(rec_))
+            want = [(v, k) for k in range(4) for v in msym[name, k]]
+            okm = C.B.const(len(got) == len(want))
+            if len(got) == len(want):
+                okm = C.all_of([phys(R.lift(g), qcan if k < 3 else ecan) == phys(v, uQ if k < 3 else uE) for g, (v, k) in zip(got, want, strict=True)])
+            chk(f'{P}:histogram metadata {what} stored in 1/angstrom (x3), meV with the supplied physical values', okm, p.pc, 'C13:histogram-metadata')
         # ---------------- the package's own reader: same numbers, and units of the same dimension
         C.CTX.exploring = True
         C.CTX.reset_path(p.decisions)
@@ -401,7 +430,8 @@ def run(chk):
 
     ir = loader.load('io.sqw._ir')
     chk.functions = loader.describe_exprs(['build._split_pix_rows', 'build._PixWrap.write', 'build.SqwBuilder._make_pix_metadata', 'build._broadcast_unique_ref', 'models.SqwIXExperiment._serialize_to_dict', 'models.SqwMultiIXExperiment._serialize_to_dict', 'models.SqwIXSample._serialize_to_dict', 'models.SqwPixelMetadata._serialize_to_dict', 'models.SqwLineProj._serialize_to_dict', 'models.SqwLineAxes._serialize_to_dict', 'models.UniqueObjContainer._serialize_to_dict', 'models._variable_to_float_array', 'models._angle_value', 'models._serialize_multi_unit_array', 'ir._serialize_field', 'rw.write_object_array', 'rw.read_object_array', 'sqw._parse_ix_sample_0_0', 'sqw._parse_line_proj_7_0', 'sqw._parse_single_ix_experiment_3_0', 'sqw._parse_pix_metadata_1_0', 'sqw._read_pix_block', 'sqw._read_dnd_block'], {**globals(), **locals()})
-    jobs = [(3, 2, 'deg', 'direct'), (2, 5, 'rad', 'indirect'), (0, 1, 'rad', 'direct'), (1, 1, 'deg', 'indirect'), (1, 1, 'rad', 'direct', (3, 1, 2, 4)), (0, 1, 'rad', 'direct', (1, 1))]
+    jobs = [(3, 2, 'deg', 'direct'), (2, 5, 'rad', 'indirect'), (0, 1, 'rad', 'direct'), (1, 1, 'deg', 'indirect'), (1, 1, 'rad', 'direct', (3, 1, 2, 4)), (0, 1, 'rad', 'direct', (1, 1)),
+            (1, 1, 'rad', 'direct', None, 'int64')]
     if chk.tier == 'thorough':
         jobs += [(3, 1, 'rad', 'direct'), (3, 3, 'deg', 'indirect'), (2, 1, 'deg', 'direct'), (3, 4, 'rad', 'indirect')]
     run_jobs(chk, job, jobs)
@@ -440,6 +470,19 @@ def replay_real(case):
     hshape = case.get('hist_shape', [2.0, 3.0])
     _e, inst, sample, dnd = c12.make_inputs(sc, models, n_runs, 'title', 'nm', hshape)
     sample = S.SqwIXSample(name='smp', lattice_spacing=sc.vector([0.286, 0.3, 0.4], unit='nm'), lattice_angle=sc.vector([90.0, 90.0, 90.0], unit='deg'))
+    meta_expect = None
+    if case.get('signature', '').startswith('C13:histogram-metadata'):
+        # image-axis metadata in non-canonical units; integer-valued where the case says so (sc.scalar(2, unit='1/nm') is int64)
+        mdt = case.get('meta_dtype', 'float64')
+        qn, en_ = ([2, 7, -3], 1500) if mdt != 'float64' else ([2.5, 7.25, -3.0], 1500.5)
+        mk = lambda v, u: sc.scalar(v, unit=u, dtype=mdt)  # noqa: E731
+        mka = lambda v, u: sc.array(dims=['range'], values=v, unit=u, dtype=mdt)  # noqa: E731
+        dnd.axes.img_scales = [mk(q, '1/nm') for q in qn] + [mk(en_, 'ueV')]
+        dnd.axes.img_range = [mka([-q - 1, q + 4], '1/nm') for q in qn] + [mka([-en_, en_ + 7], 'ueV')]
+        dnd.axes.offset = [mk(q + 1, '1/nm') for q in qn] + [mk(en_ + 1, 'ueV')]
+        dnd.proj.offset = [mk(q + 2, '1/nm') for q in qn] + [mk(en_ + 2, 'ueV')]
+        f_ = lambda lst: [np.atleast_1d(np.asarray(v.values, dtype=float)) * (0.1 if i < 3 else 1e-3) for i, v in enumerate(lst)]  # noqa: E731
+        meta_expect = {'axes.img_scales': f_(dnd.axes.img_scales), 'axes.img_range': f_(dnd.axes.img_range), 'axes.offset': f_(dnd.axes.offset), 'proj.offset': f_(dnd.proj.offset)}
     units_in = {'u1': '1/nm', 'u2': '1/angstrom', 'u3': '1/m', 'u4': 'ueV', 'irun': None, 'idet': None, 'ien': None}
     pix = sc.DataArray(sc.array(dims=['pixel'], values=rng.random(N), variances=rng.random(N), unit='count'),
                        coords={k: sc.array(dims=['pixel'], values=rng.random(N) * 10, unit=u) for k, u in units_in.items()})
@@ -494,6 +537,14 @@ def replay_real(case):
             for an in ('psi', 'omega', 'dpsi', 'gl', 'gs'):
                 if not sc.allclose(getattr(e, an).to(unit='rad'), getattr(exps[i], an).to(unit='rad')):
                     bad.append(f'{an}: {getattr(e, an)} vs {getattr(exps[i], an)}')
+        if meta_expect is not None:
+            for what, exp_l in meta_expect.items():
+                obj, attr = what.split('.')
+                got_l = getattr(getattr(dm, obj), attr)
+                for i, (g, e_) in enumerate(zip(got_l, exp_l, strict=True)):
+                    gv = np.atleast_1d(np.asarray(g.to(unit='1/angstrom' if i < 3 else 'meV').values, dtype=float))
+                    if gv.shape != e_.shape or not np.allclose(gv, e_, rtol=1e-12, atol=0):
+                        bad.append(f'histogram metadata {what}[{i}] read back as {gv.tolist()} {"1/angstrom" if i < 3 else "meV"}, supplied {e_.tolist()}')
         for what, got in (('sample.alatt', sm[0].lattice_spacing), ('proj.alatt', dm.proj.lattice_spacing)):
             want = sample.lattice_spacing if what.startswith('sample') else dnd.proj.lattice_spacing
             try:
